@@ -56,7 +56,7 @@ def gen_params(rng):
 
 def scenario_run(spec):
     from . import driver_sched
-    return canonical(driver_sched.run_scenario(spec["seed"], 0, spec["policy"], spec["flavour"], mode="obs"))
+    return canonical(driver_sched.run_scenario(spec["seed"], 0, spec["policy"], spec["flavour"], mode="obs", counter=spec.get("counter")))
 
 
 def child_main():
@@ -73,7 +73,12 @@ def scenario_case(seed, tid):
     spec = {"kind": "scenario", "seed": seed, "policy": rng.choice(["priority", "priority", "overbook", "priority-pool", "naive"]),
             "flavour": rng.choice(["preempt", "herd", "herd", "mixed", "branchy", "branchy", "twins"])}
     one_run(gen_params(random.Random(seed + 1)))
-    runs = [scenario_run(spec), scenario_run(spec), fresh(spec, 0), fresh(spec, 1), fresh(spec, 2), fresh(spec, rng.randrange(3, 10**6))]
+    # ... and at different points of a process's life: the process-wide container counter stands just below 10, 100, 1000 or anywhere else
+    # (ids are renumbered by first appearance before the runs are compared, so only behaviour that DEPENDS on the counter shows)
+    c7 = random.Random(seed ^ 0xC07)
+    at = lambda: c7.choice([1, 2, 5, 7, 8, 9, 9, 10, 95, 97, 98, 99, 99, 100, 996, 998, 999, 9998, c7.randrange(1, 20000)])
+    runs = [scenario_run(spec), scenario_run(dict(spec, counter=at())), scenario_run(dict(spec, counter=at())), fresh(spec, 0),
+            fresh(dict(spec, counter=at()), 1), fresh(spec, 2), fresh(dict(spec, counter=at()), rng.randrange(3, 10**6))]
     enc = lambda x: json.dumps(x, sort_keys=True)
     arr = [enc(ev) for ev in arrivals_only(runs[0])]
     other = dict(spec, seed=seed + 1)
